@@ -16,6 +16,8 @@ import Ark.Model.DrvC11
 import Ark.Model.DrvC04
 import Ark.Model.DrvC09
 import Ark.Model.DrvC12
+import Ark.Model.DrvC04x
+import Ark.Model.DrvC10x
 /-  arkdrv: one op per line on stdin: `<prop> <op> args… => <impl output>` → one line `model|verdict` -/
 open Ark
 
@@ -28,6 +30,8 @@ structure DrvState where
   c06 : DrvC06.Cache := {}
   c11 : DrvC11.Cache := {}
   c12 : DrvC12.Cache := {}
+  c04x : DrvC04x.Cache := {}
+  c10x : DrvC10x.Cache := {}
 
 def dispatch (st : DrvState) (line : String) : DrvState × String :=
   let (inp, impl) := match line.trimAscii.toString.splitOn " => " with
@@ -52,17 +56,32 @@ def dispatch (st : DrvState) (line : String) : DrvState × String :=
     | some (c, m, s) => ({ st with c11 := c }, m ++ "|" ++ s)
     | none => (st, "bad-op")
   | "C04" :: op :: args =>
-    match DrvC04.run op args impl with
-    | some (m, s) => (st, m ++ "|" ++ s)
-    | none => (st, "bad-op")
+    if op.startsWith "x" then
+      match DrvC04x.run st.c04x op args impl with
+      | some (c, m, s) => ({ st with c04x := c }, m ++ "|" ++ s)
+      | none => (st, "bad-op")
+    else
+      match DrvC04.run op args impl with
+      | some (m, s) => (st, m ++ "|" ++ s)
+      | none => (st, "bad-op")
   | "C09" :: op :: args =>
-    match DrvC09.run op args impl with
-    | some (m, s) => (st, m ++ "|" ++ s)
-    | none => (st, "bad-op")
+    if op.startsWith "x" then
+      match DrvC10x.run st.c10x op args impl with
+      | some (c, m, s) => ({ st with c10x := c }, m ++ "|" ++ s)
+      | none => (st, "bad-op")
+    else
+      match DrvC09.run op args impl with
+      | some (m, s) => (st, m ++ "|" ++ s)
+      | none => (st, "bad-op")
   | "C10" :: op :: args =>
-    match DrvC09.run op args impl with
-    | some (m, s) => (st, m ++ "|" ++ s)
-    | none => (st, "bad-op")
+    if op.startsWith "x" then
+      match DrvC10x.run st.c10x op args impl with
+      | some (c, m, s) => ({ st with c10x := c }, m ++ "|" ++ s)
+      | none => (st, "bad-op")
+    else
+      match DrvC09.run op args impl with
+      | some (m, s) => (st, m ++ "|" ++ s)
+      | none => (st, "bad-op")
   | "C14" :: op :: args =>
     match DrvC14.run op args impl with
     | some (m, s) => (st, m ++ "|" ++ s)
